@@ -1,12 +1,14 @@
 SPECIFICATION Spec
-CONSTANTS N = 86400 MaxSteps = 6 InvertStartBySecTruncation = FALSE CaptureAtJoinEpoch = FALSE MaxJoinSteps = 4
+CONSTANTS N = 86400 MaxSteps = 6 InvertStartBySecTruncation = FALSE CaptureAtJoinEpoch = FALSE CacheIgnoresEpoch = FALSE MaxJoinSteps = 4
 CONSTANT Lons <- LonsAll
 CONSTANT Theta0s <- ThetasAll
 CONSTANT StartSecs <- Secs60
+CONSTANT PriorAngles <- OnePrior
 CONSTANT Plans <- NoPlan
 CONSTANT Dts <- DtsThorough
 INVARIANT SiteEpochAgrees
 INVARIANT StartInversionExact
+INVARIANT ConvertIgnoresHistory
 INVARIANT SiteFixed
 INVARIANT VelIsRotation
 INVARIANT Emit
